@@ -376,9 +376,11 @@ class DocGen:
             if t.draw(3, "vnn") == 2 and not nonnull:
                 vt = tstr + "!"
             if nonnull and has_default:
-                # nullable variable in non-null position is allowed only with defaults;
-                # keep the variable non-null to stay within the allowed-position rule
-                vt = tstr
+                # a nullable variable is allowed in a non-null position that has a default
+                # (explicit null then is a field error; an omitted variable uses the default)
+                vt = tstr[:-1] if t.draw(2, "vnullable") else tstr
+                if not vt.endswith("!"):
+                    self.features.add("nullable_var_in_nonnull_arg")
             return self.new_var(vt, used, allow_omit=not vt.endswith("!"))
         if nonnull:
             return self.lit(tstr)[0]
@@ -407,7 +409,7 @@ class DocGen:
         wrap = spec.wrap[fname]
         is_list = wrap.startswith("[")
         if (self.incremental and is_list and root_kind != "mutation"
-                and root_kind != "subscription" and t.draw(3, "stream") == 2):
+                and root_kind != "subscription" and t.draw(2, "stream") == 1):
             ic = t.draw(4, "ic")
             sargs = [f"initialCount: {ic}"] if ic or t.draw(2, "ic0") else []
             sv = f"s{ic}"
@@ -471,7 +473,7 @@ class DocGen:
     def defer_directive(self, used, ctx):
         """Returns (text, new ctx) for an optional @defer."""
         t = self.t
-        if not self.incremental or ctx.get("no_defer") or t.draw(3, "defer") != 2:
+        if not self.incremental or ctx.get("no_defer") or t.draw(2, "defer") != 1:
             return "", ctx
         args = []
         k = t.draw(8, "dif")
@@ -515,8 +517,8 @@ class DocGen:
                 break
             can_nest = depth < self.max_depth and self.budget > 0
             w_field = 8 if fields else 0
-            w_inline = 2 if can_nest else 0
-            w_spread = 2 if can_nest else 0
+            w_inline = (4 if self.incremental else 2) if can_nest else 0
+            w_spread = (3 if self.incremental else 2) if can_nest else 0
             w_tn = 1 if root_kind not in ("subscription",) else 0
             if root_kind == "subscription":
                 w_inline = w_spread = 0
@@ -609,6 +611,23 @@ class DocGen:
     def document(self):
         parts = [op[2] for op in self.ops] + [f.text for f in self.frags]
         return "\n".join(parts)
+
+    def redraw_variables(self, opname):
+        """Another legal variables mapping for the same operation."""
+        t = self.t
+        used = next(op[3] for op in self.ops if op[0] == opname)
+        out = {}
+        for name in sorted(used, key=lambda s: (len(s), s)):
+            tstr, default = self.vars[name]
+            nonnull = tstr.endswith("!")
+            mode = t.draw(4, "rv_mode")
+            if mode == 2 and (default is not None or not nonnull):
+                continue
+            if mode == 3 and not nonnull:
+                out[name] = None
+            else:
+                out[name] = self.lit(tstr)[1]
+        return out
 
     def variables_for(self, opname):
         used = next(op[3] for op in self.ops if op[0] == opname)
